@@ -112,9 +112,13 @@ def upd {β} (f : Nat → β) (k : Nat) (v : β) : Nat → β := fun x => if x =
 @[simp] theorem upd_same {β} (f : Nat → β) (k : Nat) (v : β) : upd f k v k = v := by simp [upd]
 @[simp] theorem upd_other {β} (f : Nat → β) (k : Nat) (v : β) (x : Nat) (h : x ≠ k) : upd f k v x = f x := by simp [upd, h]
 
-/-- first temporary block id; ids below are inline buffers (0..3) and heap blocks (4..) -/
-def tmpBase : Nat := 1000000
-/-- the null data pointer of containers with inline capacity 0 (an empty block that is never allocated) -/
-def nullBlk : Nat := 999999
+/-! Block id spaces never collide: 0..3 are the in-object buffers of containers 0..3, 4 is the null data pointer of
+    containers with inline capacity 0, heap blocks take the odd ids 5, 7, 9, … in allocation order, temporaries the
+    even ids 6, 8, 10, … -/
+def nullBlk : Nat := 4
+def heapBase : Nat := 5
+def tmpBase : Nat := 6
+def isTmp (b : Nat) : Bool := decide (6 ≤ b) && b % 2 == 0
+def isHeap (b : Nat) : Bool := decide (5 ≤ b) && b % 2 == 1
 
 end SvModel
